@@ -132,6 +132,40 @@ example : Balanced [.start (some "a/") none, .start none (some "fr"), .stop, .st
     (Balanced.wrap none (some "fr") [] [] Balanced.nil Balanced.nil)
     (Balanced.wrap none none [] [] Balanced.nil Balanced.nil)
 
+
+/-! ### the base half of the state is a sub-machine of its own (language plays no part in it) -/
+
+/-- base URI and base stack -/
+def bpair (s : St) : String × List String := (s.baseuri, s.basestack)
+
+theorem step_bpair (o : Ops) (s t : St) (e : Ev) (h : bpair s = bpair t) : bpair (step o s e) = bpair (step o t e) := by
+  have h1 : s.baseuri = t.baseuri := congrArg Prod.fst h
+  have h2 : s.basestack = t.basestack := congrArg Prod.snd h
+  cases e with
+  | start xb xl => simp only [step, bpair, h1, h2]
+  | stop =>
+    simp only [step, bpair, h1, h2]
+
+theorem run_bpair (o : Ops) (evs : List Ev) : ∀ s t : St, bpair s = bpair t → bpair (run o s evs) = bpair (run o t evs) := by
+  induction evs with
+  | nil => intro s t h; exact h
+  | cons e rest ih =>
+    intro s t h
+    simp only [run, List.foldl_cons]
+    exact ih _ _ (step_bpair o s t e h)
+
+/-- the base half of `Inv` -/
+def BInv (s : St) : Prop := (∃ t rest, s.basestack = t :: rest ∧ s.baseuri = t) ∧ ∀ x ∈ s.basestack, x ≠ ""
+
+/-- **Lexical scoping of the base, whatever the language stack looks like**: every balanced block restores base URI and base stack -/
+theorem balanced_restores_base (o : Ops) (evs : List Ev) (hb : Balanced evs) (s : St) (hs : BInv s) :
+    bpair (run o s evs) = bpair s := by
+  have hinv : Inv { s with lang := none, langstack := [none] } := ⟨hs.1, hs.2, ⟨none, [], rfl, rfl⟩⟩
+  have h1 := balanced_restores o evs hb _ hinv
+  have h2 := run_bpair o evs s { s with lang := none, langstack := [none] } rfl
+  rw [h2, h1]
+  rfl
+
 end FeedVerif.Base
 
 
@@ -248,5 +282,259 @@ example :
     (some (.s (S "http://inner/|a.html")),
      some (.l [[(S "xml:base", some (S "http://inner/")), (S "href", some (S "http://inner/|a.html")), (S "rel", some (S "alternate")), (S "type", some (S "text/html"))],
                [(S "rel", some (S "self")), (S "href", some (S "http://outer/|b.xml")), (S "type", some (S "application/atom+xml"))]])) := by decide +kernel
+
+
+/-! ### the base component of the handler machine IS M-base run on the tag events (a sub-machine, like the version one)
+
+Together with `balanced_restores_base` this carries C05's headline to the handlers: whatever children an element has (balanced), its END
+handler — where `pop()` resolves the element-level URI and the relative URIs of embedded markup — runs with the base the START handler
+saw, i.e. the element's own effective base. -/
+
+/-- the M-base events of a handler-machine event -/
+def toBaseEv (loose : Bool) : MEv → List Base.Ev
+  | .start _ attrs =>
+    [.start (((sget (dictOf (attrs.map (normAttr loose))) (S "xml:base")).orElse fun _ => sget (dictOf (attrs.map (normAttr loose))) (S "base")).map toBaseStr)
+            (((sget (dictOf (attrs.map (normAttr loose))) (S "xml:lang")).orElse fun _ => sget (dictOf (attrs.map (normAttr loose))) (S "lang")).map toBaseStr)]
+  | .stop _ => [.stop]
+  | _ => []
+
+theorem pushContent_bpair (c : Core) (tag : Str) (a : List (Str × Str)) (d : Str) (e : Bool) :
+    Base.bpair (pushContent c tag a d e).1.base = Base.bpair c.base := rfl
+
+theorem setContext_base (c : Core) (k : Str) (v : V) : (setContext c k v).base = c.base := by
+  unfold setContext; split <;> rfl
+
+theorem track_base (c : Core) (p : Option Str) (u : Str) : (trackNamespace c p u).base = c.base := by
+  unfold trackNamespace; simp only; split <;> rfl
+
+theorem popFull_base (o : Ops) (s : MSt) (el : Str) : (popFull o s el).2.c.base = s.c.base := by
+  unfold popFull
+  split
+  · rfl
+  · split
+    · rfl
+    · simp only
+      split
+      · rfl
+      · split
+        · rfl
+        · split
+          · rfl
+          · split
+            · rfl
+            · split
+              · rfl
+              · split <;> rfl
+
+theorem popContent_base (o : Ops) (s : MSt) (k : Str) : (popContent o s k).2.c.base = s.c.base := popFull_base o s k
+
+theorem startContent_bpair (s : Core) (k : Str) (a : List (Str × Str)) (ty : Str) (e : Bool) (c' : Core) (pe : Option Elem)
+    (h : startContent s k a ty e = .ok (c', pe)) : Base.bpair c'.base = Base.bpair s.base := by
+  rw [(startContent_ok _ _ _ _ _ _ _ h).1]; rfl
+
+theorem dispatch_bpair (c : Core) (hn : Str) (a : List (Str × Str)) (c' : Core) (pe : Option Elem)
+    (h : dispatchCore c hn a = .ok (c', pe)) : Base.bpair c'.base = Base.bpair c.base := by
+  unfold dispatchCore at h
+  split at h
+  · injection h with h
+    split at h <;> (injection h with h1 _; rw [← h1])
+  · split at h
+    · split at h
+      · cases h
+      · split at h
+        · injection h with h; injection h with h1 _; rw [← h1]
+        · split at h
+          · injection h with h
+            split at h <;> (injection h with h1 _; rw [← h1])
+          · simp only at h
+            injection h with h; injection h with h1 _
+            rw [← h1]
+            split
+            · split
+              · rfl
+              · rw [setContext_base]
+            · rfl
+    · split at h
+      · injection h with h; injection h with h1 _; rw [← h1]
+      · split at h
+        · exact startContent_bpair _ _ _ _ _ _ _ h
+        · split at h
+          · exact startContent_bpair _ _ _ _ _ _ _ h
+          · split at h
+            · cases h
+            · simp only at h
+              split at h
+              · injection h with h; injection h with h1 _; rw [← h1]
+              · injection h with h; injection h with h1 _; rw [← h1, setContext_base]
+
+theorem startExt_bpair (s : Core) (kind : Str) (a : List (Str × Str)) (c' : Core) (es : List Elem)
+    (h : startExt s kind a = .ok (c', es)) : Base.bpair c'.base = Base.bpair s.base := by
+  unfold startExt at h
+  simp only at h
+  have L : ∀ (s0 : Core) k ty e, startContentL s0 k a ty e = .ok (c', es) → s0.base = s.base → Base.bpair c'.base = Base.bpair s.base := by
+    intro s0 k ty e hh hb
+    rw [(startContentL_ok _ _ _ _ _ _ _ hh).1, pushContent_bpair, hb]
+  have E : ∀ (s0 : Core), startContentElem s0 a = .ok (c', es) → s0.base = s.base → Base.bpair c'.base = Base.bpair s.base := by
+    intro s0 hh hb
+    rw [(startContentElem_ok _ _ _ _ hh).1]
+    unfold contentElemCore
+    simp only
+    rw [← hb]
+    rfl
+  split at h
+  · split at h
+    · exact E _ h rfl
+    · exact L _ _ _ _ h rfl
+  · split at h
+    · exact L _ _ _ _ h rfl
+    · split at h
+      · split at h
+        · exact E _ h rfl
+        · exact L _ _ _ _ h rfl
+      · split at h
+        · exact E _ h rfl
+        · split at h
+          · exact L _ _ _ _ h rfl
+          · cases h
+
+theorem endFinish_base (o : Ops) (c : Core) : (endFinish o c).base = Base.step o.base c.base .stop := rfl
+
+/-- one step of the handler machine moves the base component exactly as M-base moves on the step's tag events -/
+theorem step_base (o : Ops) (s s' : MSt) (e : MEv) (h : mstep o s e = .ok s') :
+    Base.bpair s'.c.base = Base.bpair (Base.run o.base s.c.base (toBaseEv o.loose e)) := by
+  cases e with
+  | start tag attrs =>
+    simp only [mstep, startTag] at h
+    split at h
+    · cases h
+    simp only [startTag0] at h
+    have hb := handler_sees_inner_base o s.c tag attrs
+    have goal : ∀ c' : Core, Base.bpair c'.base = Base.bpair (startPre o s.c tag attrs).1.base →
+        Base.bpair c'.base = Base.bpair (Base.run o.base s.c.base (toBaseEv o.loose (.start tag attrs))) := by
+      intro c' hc
+      rw [hc, hb]; rfl
+    cases hx : extKind (handlerName (startPre o s.c tag attrs).1 tag) with
+    | some kind =>
+      rw [hx] at h
+      simp only at h
+      cases hr : startExt (startPre o s.c tag attrs).1 kind (startPre o s.c tag attrs).2 with
+      | error w => rw [hr] at h; simp [applyExt] at h
+      | ok r =>
+        obtain ⟨c', es⟩ := r
+        rw [hr] at h
+        simp only [applyExt, Outcome.ok.injEq] at h
+        rw [← h]
+        exact goal c' (startExt_bpair _ _ _ _ _ hr)
+    | none =>
+    rw [hx] at h
+    simp only at h
+    cases hl : lgKind (handlerName (startPre o s.c tag attrs).1 tag) with
+    | some kind =>
+      rw [hl] at h
+      simp only at h
+      cases hr : startLG o (startPre o s.c tag attrs).1 kind (startPre o s.c tag attrs).2 with
+      | error w => rw [hr] at h; simp [applyExt] at h
+      | ok r =>
+        obtain ⟨c', es⟩ := r
+        rw [hr] at h
+        simp only [applyExt, Outcome.ok.injEq] at h
+        rw [← h]
+        exact goal c' (by rw [(startLG_frame4 _ _ _ _ _ _ hr).2.2.2.2.2.2.1])
+    | none =>
+    rw [hl] at h
+    simp only at h
+    cases hd : dispatchCore (startPre o s.c tag attrs).1 (handlerName (startPre o s.c tag attrs).1 tag) (startPre o s.c tag attrs).2 with
+    | error w => rw [hd] at h; simp [applyDispatch] at h
+    | ok r =>
+      obtain ⟨c', pe⟩ := r
+      rw [hd] at h
+      have hdb := dispatch_bpair _ _ _ _ _ hd
+      cases pe with
+      | none => simp only [applyDispatch, Outcome.ok.injEq] at h; rw [← h]; exact goal c' hdb
+      | some el => simp only [applyDispatch, Outcome.ok.injEq] at h; rw [← h]; exact goal c' hdb
+  | stop tag =>
+    have fin : ∀ (c1 : Core) (st : List Elem), c1.base = s.c.base →
+        Base.bpair (⟨endFinish o c1, st⟩ : MSt).c.base = Base.bpair (Base.run o.base s.c.base (toBaseEv o.loose (.stop tag))) := by
+      intro c1 st hc
+      simp only [endFinish_base, hc]; rfl
+    simp only [mstep, endTag] at h
+    split at h
+    · split at h
+      · rename_i kind _
+        rw [endExt_ok o s s' kind h]
+        apply fin
+        have hf : (endExtCore o s kind).base = (popContent o s (endPlan s.c kind).1).2.c.base := by
+          unfold endExtCore endExtSaved
+          split <;> (split <;> first | rfl | exact (saveDefault_frame _ _ _).2.2.2.2.2.2.1)
+        rw [hf, popContent_base]
+      · obtain ⟨k, top, rest, _, _, _, hs'⟩ := endContent_ok o s s' _ h
+        rw [hs']
+        apply fin
+        rw [(afterTitle_frame k (popContent o s k)).2.2.2.2.2.2.2.2.1, popContent_base]
+    split at h
+    · cases h
+    simp only [endTag0] at h
+    split at h
+    · injection h with h; rw [← h]; exact fin _ _ rfl
+    · split at h
+      · injection h with h; rw [← h]; exact fin _ _ (pop_frame4 o s _).2.2.2.2.2.2.1
+      · split at h
+        · obtain ⟨c1, st, hf, hs', _⟩ := endLG_ok o s s' _ h
+          rw [hs']; exact fin _ _ hf.2.2.2.2.2.2.1
+        · split at h
+          · injection h with h; rw [← h]
+            exact fin _ _ (by rw [setContext_base]; exact (pop_frame4 o s _).2.2.2.2.2.2.1)
+          · split at h
+            · cases h
+            · injection h with h; rw [← h]; exact fin _ _ (pop_frame4 o s _).2.2.2.2.2.2.1
+  | data t =>
+    simp only [mstep] at h
+    injection h with h
+    rw [← h]
+    unfold handleData
+    split <;> rfl
+  | ns p u =>
+    simp only [mstep] at h
+    injection h with h
+    rw [← h]
+    simp only [track_base]; rfl
+
+/-- **The base sub-machine**: for every event sequence in the model's domain the base URI and base stack the machine ends with are what
+M-base computes from the tag events alone — no handler, no text, no option has any influence on them. -/
+theorem base_submachine (o : Ops) (evs : List MEv) : ∀ s s' : MSt, mrun o s evs = .ok s' →
+    Base.bpair s'.c.base = Base.bpair (Base.run o.base s.c.base (evs.flatMap (toBaseEv o.loose))) := by
+  induction evs with
+  | nil => intro s s' h; simp only [mrun] at h; injection h with h; rw [← h]; rfl
+  | cons e rest ih =>
+    intro s s' h
+    simp only [mrun] at h
+    split at h
+    · rename_i s1 hs1
+      have h1 := step_base o s s1 e hs1
+      have h2 := ih s1 s' h
+      rw [h2, List.flatMap_cons, Base.run_append]
+      exact Base.run_bpair o.base _ _ _ h1
+    · cases h
+
+/-- **An element's end handler runs with the element's own base**: after the start tag (state `s1`) and ANY children whose tags are
+balanced — whatever their `xml:base` values, handlers and text — the base URI is again the one the start handler saw; so the
+element-level URI and the embedded markup that `pop()` resolves at the end tag are resolved against the element's own effective base. -/
+theorem end_handler_sees_own_base (o : Ops) (s1 s2 : MSt) (children : List MEv)
+    (hrun : mrun o s1 children = .ok s2) (hb : Base.Balanced (children.flatMap (toBaseEv o.loose))) (hinv : Base.BInv s1.c.base) :
+    s2.c.base.baseuri = s1.c.base.baseuri := by
+  have h1 := base_submachine o children s1 s2 hrun
+  rw [Base.balanced_restores_base o.base _ hb _ hinv] at h1
+  exact congrArg Prod.fst h1
+
+/-- non-vacuity of `end_handler_sees_own_base`: a state whose base half satisfies `BInv`, children with their own `xml:base` whose tag events are balanced, and
+a run inside the model's domain -/
+example :
+    let o : Ops := { base := ⟨fun _ r => r, fun u => u, fun b r => b ++ r⟩, join := fun b u => b ++ S "|" ++ u, fix := id, loose := false }
+    let s1 : MSt := { c := { entries := [{}], inentry := true, infeed := true, base := ⟨"http://outer/", none, ["http://outer/"], [none]⟩ } }
+    let children : List MEv := [.start (S "x:a") [(S "xml:base", S "http://inner/")], .data (S "t"), .start (S "x:b") [], .stop (S "x:b"), .stop (S "x:a")]
+    (match mrun o s1 children with | .ok s2 => s2.c.base.baseuri == "http://outer/" | .unmodelled _ => false) = true ∧
+    Base.Balanced (children.flatMap (toBaseEv o.loose)) ∧ Base.BInv s1.c.base := by
+  refine ⟨by decide +kernel, ?_, ⟨⟨_, _, rfl, rfl⟩, by intro x hx; simp at hx; subst hx; decide⟩⟩
+  exact Base.Balanced.wrap _ _ [.start _ _, .stop] [] (Base.Balanced.wrap _ _ [] [] Base.Balanced.nil Base.Balanced.nil) Base.Balanced.nil
 
 end FeedVerif.Mixin
